@@ -150,7 +150,14 @@ class C01(Prop):
     level_note = ("Lean kernel + standard axioms; hand-written models of str/regex/sort semantics (lean/PrefVerif/Py), "
                   "whose character tables are compared with CPython exhaustively and the scanners on random strings on "
                   "every run; file system byte-transparent; ASCII digits only")
-    theorems = []
+    theorems = [
+        "PrefVerif.C01.scan_render",
+        "PrefVerif.C01.roundtrip",
+        "PrefVerif.C01.roundtrip_get",
+        "PrefVerif.C01.norm_same",
+        "PrefVerif.C01.rewrite",
+        "PrefVerif.C01.independent_reader",
+    ]
     rule = ("random well-formed ordinal instances (soc/soi/toc/toi; ids 1..m, shifted or sparse up to 3 digits; ties "
             "first/last/single class; multiplicities up to 120 with ties in the sort key; names and metadata over an "
             "alphabet with ':', ',', braces, '#', non-ASCII, '__1', empty strings); non-trivial = at least 2 orders")
